@@ -13,6 +13,15 @@ from lib import common, sched, lbzx, inputs
 
 LEVEL = 'fault_enumeration'
 
+def _nthr(c):
+    """threads of a cell: main, reader, writer and W workers; the copy pipeline has no workers"""
+    if any(a in ('-cdf',) for a in c.args) and c.leg.startswith('copy'):
+        return 3
+    for a in c.args:
+        if a.startswith('-n') and a[2:].isdigit():
+            return int(a[2:]) + 3
+    return 99
+
 def run(tier):
     chk = common.Check('C21', LEVEL, tier, quick_deadline=170, thorough_deadline=1700)
     quick = tier == 'quick'
@@ -73,6 +82,7 @@ def run(tier):
                 if W == (3 if pname != 'copy' else 1) and kind in ('read-EIO', 'write-ENOSPC', 'write-EPIPE', 'write-EFBIG-ignored'):
                     ex.add(pname, 'fast', ['-n%d' % W] + args, data, orc, '%s W=%d %s inherited-mask' % (pname, W, kind),
                            dict(opts, inherit_mask='usr1,usr2,int,term,pipe,xfsz'))
+    ex.run_priorities(_nthr, cells=[c for c in ex.cells if _nthr(c) <= (4 if quick else 6) and 'inherited' not in c.desc])
     done = 0
     for d in range(1, (2 if quick else 3) + 1):
         if d == 2 and quick:
